@@ -72,6 +72,27 @@ func boundCells(x *Ctx) {
 					timeFields[paths.FieldName(st.Field(i))] = true
 				}
 			}
+			// an option that sets a bound sets it on each of its success paths: a path that succeeds without the store
+			// leaves the token with the bound it had (an earlier option's), not with the one this option was given
+			setSomewhere := map[string]bool{}
+			for _, q := range rf.Paths {
+				for k := range q.FieldStores(tok) {
+					if timeFields[k] {
+						setSomewhere[k] = true
+					}
+				}
+			}
+			for _, q := range rf.Paths {
+				if q.End != paths.EndReturn || len(q.Results()) != 1 || q.Results()[0] == nil || !q.Results()[0].IsNil() {
+					continue
+				}
+				st := q.FieldStores(tok)
+				for k := range setSomewhere {
+					if _, has := st[k]; !has {
+						bad += fmt.Sprintf("%s: the option succeeds on a path that leaves %s as it was: the token keeps the bound it already had, not the instant the option was given\n", x.P.Pos(q.Ret.Pos()), k)
+					}
+				}
+			}
 			for _, q := range rf.Paths {
 				// the option applies another time option: f(t) = WithX(instant)(t). That option's own obligation
 				// covers the cell; the instant handed to it must be the caller's (or now + the caller's duration)
@@ -135,6 +156,18 @@ func boundCells(x *Ctx) {
 						}
 					case strings.HasPrefix(v.String(), "global("), v.Op == "global":
 						bad += fmt.Sprintf("the option stores the address of a package-level variable (%s) into %s\n", v, fld)
+					default:
+						// the bound the token already had, kept or put back: the option then does not set what it was given
+						// (which of two options wins depends on a comparison that each sibling has to get right)
+						idx := len(rf.Fn.Params) - 1
+						if rf.Fn.Signature.Recv() != nil {
+							idx--
+						}
+						for tf := range timeFields {
+							if strings.Contains(rf.Tr(v), fmt.Sprintf("arg%d.%s", idx, tf)) {
+								bad += fmt.Sprintf("%s: on a path that succeeds the option stores %s as %s: the bound the token already had, not the instant the option was given\n", x.P.Pos(q.Ret.Pos()), rf.Tr(v), fld)
+							}
+						}
 					}
 				}
 			}
